@@ -22,6 +22,24 @@ CHECKS = {
   "validity test are decided for all inputs. The HashMap-based fit/transform/CategoryMapper are outside (not encodable).",
   "Trusts Kani/CBMC; reaches the crate-private find_new_idxs through the cfg(feature=verif) hook; OneHotEncoder::{fit,transform} end-to-end and CategoryMapper identities are not covered (std HashMap does not finish in CBMC).",
   "DESIGN.md 6/C18"),
+ "C01": (True,
+  "LU: for every finite f32 2x2 input L is unit lower triangular, U upper triangular, P a permutation that picks the largest leading entry, multipliers <= 1; for every non-singular integer-lattice 2x2 / 3x3 matrix P*A = L*U, inverse and solve equal the exact rational solution. "
+  "Cholesky: every symmetric 2x2 (any finite f64) with a diagonal entry <= -1 and every non-square input is rejected; for A = L0*L0^T from an integer factor the factor, U = L^T and the solve are recovered. QR: 1x1 at every binary scale 2.4e-7..1e12 and 2x1 lattice: Q orthonormal, Q*R = A, least-squares solve (2x2 thorough). "
+  "SVD of one column (1x1, 2x1; 3x1 thorough): s >= 0 equals the column norm, U, V orthonormal, U*s*V^T = A. QR below machine epsilon is a known finding (C01-qr-absolute-epsilon). SVD with >= 2 columns, shapes above 3x3 and accuracy on non-lattice data are outside.",
+  "Trusts Kani/CBMC incl. CBMC's f32 sqrt; hypot is stubbed by sqrt(x*x+y*y); error constructors are trapped (an unexpected Err is a violation); lattice domains make the real code's float arithmetic nearly exact so that small absolute tolerances are meaningful; nothing is claimed for SVD sweeps (>= 2 columns).",
+  "DESIGN.md 6/C01"),
+ "C04": (True,
+  "Selection structure (HeapSelection, k <= 3, up to 5 arbitrary i8 adds; heapify k <= 4): holds exactly the k smallest as a multiset and peek is the k-th smallest after every add. Exhaustive scan LinearKNNSearch::find for n <= 3 and every k (n = 4 thorough) on a 1-D "
+  "integer lattice with ties/duplicates: exactly k results, distinct true indices, true distances and points, k smallest; find_radius returns exactly the points with d <= r (d == r included); k = 0, k > n, r <= 0 and invalid estimator settings are errors; "
+  "neighbour weights (uniform / inverse distance / exact match takes all). Cover tree: construction from a single point succeeds (full query in the thorough tier). Cover-tree search on >= 2 points and the k-NN estimators' predictions are NOT covered (do not finish).",
+  "Trusts Kani/CBMC; crate-private HeapSelection and calc_weights are reached through cfg(feature=verif) hooks; ln is replaced by a sign-faithful surrogate in the cover-tree harnesses; error constructors trapped where success is expected.",
+  "DESIGN.md 6/C04"),
+ "C05": (True,
+  "One greedy split search (the inductive step of tree growth) from an ARBITRARY sample-weight state (weights 0..2 = bootstrap multiplicities / rows routed elsewhere), min_samples_leaf symbolic: for n <= 3 rows (n = 4 thorough), p <= 2 features on a small lattice with repeated values, "
+  "CBMC proves for the real find_best_split of both trees that a split is returned iff an admissible cut exists, the threshold is the midpoint of two consecutive distinct present values, both children respect min_samples_leaf, the squared-error reduction (regression) / Gini or classification-error decrease (classification, distinct values) "
+  "is maximal among all admissible cuts (exact rational comparison) and child outputs are the weighted means / majority classes of exactly the rows on each side; impurity closed forms and which_max. Whole fits (depth limits, completeness, determinism) are outside.",
+  "Trusts Kani/CBMC; reaches the private split search through cfg(feature=verif) hooks that build the one-node tree exactly as fit_weak_learner does (real quick_argsort order); Entropy criterion values (log2) and everything needing a grown tree are outside the claim.",
+  "DESIGN.md 6/C05"),
  "C03": (True,
   "For every DenseMatrix/Vec of the listed concrete shapes (up to 3x2/2x3 quick, 3x4 thorough) CBMC proves, for ALL values of the stated domain, that each structural operation "
   "(constructors, get/set, rows/columns, iteration, transpose, reshape to every compatible shape, flattening, slice over every range, take with every index pair, stacking, copy, fill/eye) "
